@@ -2,8 +2,8 @@
 (***************************************************************************)
 (* Judges what the real engine reported for (state, action) cases of       *)
 (* Core.tla (harness/fn_core.py).  A case is                               *)
-(*   [S, a, fail, exc, uexc, before, after, undo]                          *)
-(* with S / a as MC_Core exported them and before / after / undo the       *)
+(*   [S, as, fail, exc, uexc, before, after, undo]                         *)
+(* with S and the one or two actions `as` of the bundle as MC_Core exported them and before / after / undo the       *)
 (* engine's tables after loading S, after the action, after its undo:      *)
 (*   [p : <<[r, name, total, orders]>>, o : <<[r, who, kind, amt, wname]>>,*)
 (*    s : <<[kind, count, amt, total, group]>>, odd]                       *)
@@ -65,24 +65,36 @@ Canon(X) == [p |-> {[r |-> row.r, name |-> row.name, total |-> row.total, orders
              odd |-> X.odd]
 
 ModelState(c) == [p |-> [r \in PIds |-> c.S.p[r]], o |-> [r \in OIds |-> c.S.o[r]]]
-ModelAct(c)   == [op |-> c.a.op, r |-> c.a.r, v |-> c.a.v, s |-> c.a.s, l |-> SeqRange(c.a.l)]
+ModelAct(x)   == [op |-> x.op, r |-> x.r, v |-> x.v, s |-> x.s, l |-> SeqRange(x.l)]
+
+\* the meaning of a bundle of one or two actions: [app, ok, s] - every action applicable where it is
+\* taken; accepted as a whole or refused as a whole (a refused bundle leaves the state before it: C04)
+Bundle(S0, as) ==
+  LET a1 == ModelAct(as[1])
+      s1 == Step(S0, a1)
+  IN IF ~Applicable(S0, a1) THEN [app |-> FALSE, ok |-> FALSE, s |-> S0]
+     ELSE IF Len(as) = 1 \/ ~s1.ok THEN [app |-> TRUE, ok |-> s1.ok, s |-> IF s1.ok THEN s1.s ELSE S0]
+     ELSE LET a2 == ModelAct(as[2])
+              s2 == Step(s1.s, a2)
+          IN IF ~Applicable(s1.s, a2) THEN [app |-> FALSE, ok |-> FALSE, s |-> S0]
+             ELSE [app |-> TRUE, ok |-> s2.ok, s |-> IF s2.ok THEN s2.s ELSE S0]
 
 Judge(c) ==
   \* the engine refused the ordinary removals / additions that bring it to the state: nothing to judge
-  \* (a note, not a verdict; the harness gives up only if no case at all can be loaded)
+  \* (a note, not a verdict; the harness gives up only if most cases cannot be loaded)
   IF c.fail # "" THEN {"Core.load-failed"}
-  ELSE LET S0 == ModelState(c)  a == ModelAct(c)
+  ELSE LET S0 == ModelState(c)
            loaded == Within(c.before) /\ ToState(c.before) = S0
-           st == Step(S0, a) IN
+           st == Bundle(S0, c.as) IN
     (IF loaded THEN {} ELSE {"Core.load-mismatch"})
     \cup StateClauses(c.before, "load")
     \cup (IF c.exc # ""
           THEN (IF Canon(c.after) = Canon(c.before) THEN {} ELSE {"C04.model"})
-               \cup (IF loaded /\ Applicable(S0, a) /\ st.ok THEN {"Core.rejected"} ELSE {})
+               \cup (IF loaded /\ st.app /\ st.ok THEN {"Core.rejected"} ELSE {})
           ELSE StateClauses(c.after, "step")
                \* (an action the model refuses may also be accepted as a no-op: an update of a missing
                \*  record with the default value is trimmed away before anything looks for the record)
-               \cup (IF ~loaded \/ ~Applicable(S0, a) THEN {}
+               \cup (IF ~loaded \/ ~st.app THEN {}
                      ELSE IF Within(c.after) /\ ToState(c.after) = st.s THEN {}
                      ELSE IF st.ok THEN {"Core.effect"} ELSE {"Core.accepted"})
                \cup (IF c.uexc = "" /\ Canon(c.undo) = Canon(c.before) THEN {} ELSE {"C01.model"}))
